@@ -57,9 +57,12 @@ ConfCount(i) ==
   Judged(i) => \A k \in 1..Len(Os(i)) :
      LET o == Os(i)[k] IN o.fills >= 0 => ((o.fills > 0) <=> (IF St(i).big THEN BigLaws!Matched(o) ELSE Laws!Matched(o)))
 
+(* keeper level: an order that names a pair / app / coin it does not belong to is rejected at the message *)
+ConfForeignOrder(i) == St(i).foreignAccepted = 0
+
 Formulas == <<"C05_BaseConserved", "C05_DustNonNegative", "C05_DustBelowFills", "C05_PaidWithinOffer", "C05_FilledWithinAmount",
               "C05_PriceWithinLimit", "C05_MatchedReceives",
-              "Conf_NoPanic", "Conf_Unmatched", "Conf_DustReturned", "Conf_FillArithmetic", "Conf_OfferAmount", "Conf_FillCount">>
+              "Conf_NoPanic", "Conf_Unmatched", "Conf_DustReturned", "Conf_FillArithmetic", "Conf_OfferAmount", "Conf_FillCount", "Conf_ForeignOrderRejected">>
 Holds(f, i) ==
   CASE f = "C05_BaseConserved" -> C05Base(i)
     [] f = "C05_DustNonNegative" -> C05DustPos(i)
@@ -74,6 +77,7 @@ Holds(f, i) ==
     [] f = "Conf_FillArithmetic" -> ConfFill(i)
     [] f = "Conf_OfferAmount" -> ConfOffer(i)
     [] f = "Conf_FillCount" -> ConfCount(i)
+    [] f = "Conf_ForeignOrderRejected" -> ConfForeignOrder(i)
 
 Judge == \A k \in 1..Len(Formulas) : Holds(Formulas[k], cur) \/ PrintT(<<"FAIL", Formulas[k], cur>>)
 
@@ -89,9 +93,14 @@ KMatch(i) == St(i).mode = "kmatch" /\ St(i).matched
 KFull(i) == St(i).mode = "kfull" /\ St(i).matched
 Ranged(i) == St(i).pool = "ranged" /\ St(i).matched
 Excess(i) == St(i).excessSide # "none"
+KSkewed(i) == KFull(i) /\ St(i).appId # St(i).pairId /\ St(i).appId # 1
+KSide(i) == KFull(i) /\ St(i).pairId = 1
+KPoolNePair(i) == KFull(i) /\ \E k \in 1..Len(St(i).poolIds) : St(i).poolIds[k] # St(i).pairId
+ForeignOrders(i) == St(i).foreignAttempts > 0
 Stats == PrintT(<<"STATS", [nodes |-> NLog, matched |-> Count(IsMatched), big |-> Count(IsBig), withLast |-> Count(WithLast),
                              poolMatched |-> Count(PoolMatched), multiFill |-> Count(MultiFill), partial |-> Count(Partial),
                              mixedAges |-> Count(MixedAges), kmatch |-> Count(KMatch), kfull |-> Count(KFull), ranged |-> Count(Ranged),
-                             baseExcess |-> Count(Excess)]>>)
+                             baseExcess |-> Count(Excess), kfullIdsDistinct |-> Count(KSkewed), kfullSecondPair |-> Count(KSide),
+                             kfullPoolIdNePairId |-> Count(KPoolNePair), foreignOrderAttempts |-> Count(ForeignOrders)]>>)
 AllSeen == Stats /\ TLCGet("stats").distinct = NLog
 =============================================================================
